@@ -346,42 +346,61 @@ func (r *wrun) owners(t *wmpt.WeightedMerkleTrie) (list []any, total int64, ok b
 	}
 	res := Guard(func() string {
 		total = r.sw(t.Weight())
-		root := t.Root()
+		// all proofs are requested BEFORE the root hash is read: a prover must not depend on somebody having refreshed its
+		// cached hashes (Root()) since the last update
+		type got struct {
+			q, b  uint64
+			key   []byte
+			proof []byte
+			err   error
+		}
+		var gots []got
 		for q := uint64(1); int64(q) <= total && q <= 64; q++ {
 			blocks := []uint64{q}
 			if S > 1 {
 				blocks = []uint64{(q-1)*S + 1, (q-1)*S + 1 + (q*7919)%S, q * S}
 			}
-			row := []any(nil)
 			for _, b := range blocks {
 				key, proof, err := t.GetBlockProof(b)
-				if err != nil {
-					row = []any{q, -1, "", 0, false, "err"}
-					break
-				}
-				idx, known := r.kidx[string(key)]
-				if !known {
-					idx = -2
-				}
-				val, wt := "", int64(0)
-				if recs, perr := bridge.ParseProof(proof); perr == nil && len(recs) > 0 {
-					if n, nerr := bridge.ParseWNode(recs[len(recs)-1]); nerr == nil && n.Kind == 'V' {
-						val, wt = string(n.Value), r.sw(n.Weight)
-					}
-				}
-				vt := wmpt.New(nil, nil)
-				h, v, verr := vt.VerifyBlockProof(b, proof)
-				verified := verr == nil && bytes.Equal(h, root) && string(v) == val
-				cur := []any{q, idx, val, wt, verified, "ok"}
-				if row != nil && (row[1] != cur[1] || row[2] != cur[2] || row[3] != cur[3]) {
-					row = []any{q, idx, val, wt, false, "split"}
-					break
-				}
-				if row == nil || !verified {
-					row = cur
+				gots = append(gots, got{q, b, key, proof, err})
+			}
+		}
+		root := t.Root()
+		rows := map[uint64][]any{}
+		done := map[uint64]bool{}
+		for _, g := range gots {
+			if done[g.q] {
+				continue
+			}
+			if g.err != nil {
+				rows[g.q], done[g.q] = []any{g.q, -1, "", 0, false, "err"}, true
+				continue
+			}
+			idx, known := r.kidx[string(g.key)]
+			if !known {
+				idx = -2
+			}
+			val, wt := "", int64(0)
+			if recs, perr := bridge.ParseProof(g.proof); perr == nil && len(recs) > 0 {
+				if n, nerr := bridge.ParseWNode(recs[len(recs)-1]); nerr == nil && n.Kind == 'V' {
+					val, wt = string(n.Value), r.sw(n.Weight)
 				}
 			}
-			list = append(list, row)
+			vt := wmpt.New(nil, nil)
+			h, v, verr := vt.VerifyBlockProof(g.b, g.proof)
+			verified := verr == nil && bytes.Equal(h, root) && string(v) == val
+			cur := []any{g.q, idx, val, wt, verified, "ok"}
+			row := rows[g.q]
+			if row != nil && (row[1] != cur[1] || row[2] != cur[2] || row[3] != cur[3]) {
+				rows[g.q], done[g.q] = []any{g.q, idx, val, wt, false, "split"}, true
+				continue
+			}
+			if row == nil || !verified {
+				rows[g.q] = cur
+			}
+		}
+		for q := uint64(1); int64(q) <= total && q <= 64; q++ {
+			list = append(list, rows[q])
 		}
 		return "ok"
 	})
